@@ -276,6 +276,24 @@ fn gen_children(rng: &mut Rng) -> Case {
             setup.push(Op::Call { h: parent[i], m: next_m, script: vec![Act::RegisterChild { j: ty - 1, h: hs }] });
         }
     }
+    // some children are registered a second time (the same or another message type): one delivery per registration
+    let mut twice = 0;
+    for i in 1..n {
+        if rng.chance(1, 3) {
+            twice += 1;
+            let hs = next_h;
+            next_h += 1;
+            next_m += 1;
+            let ty = rng.below(3);
+            if ty == 0 {
+                setup.push(Op::MkSenderUnit { h: i, h2: hs });
+                setup.push(Op::Call { h: parent[i], m: next_m, script: vec![Act::AddChild(hs)] });
+            } else {
+                setup.push(Op::MkSenderB { j: ty - 1, h: i, h2: hs });
+                setup.push(Op::Call { h: parent[i], m: next_m, script: vec![Act::RegisterChild { j: ty - 1, h: hs }] });
+            }
+        }
+    }
     let mut held: Vec<usize> = vec![0];
     for i in 1..n {
         if rng.chance(2, 3) {
@@ -351,6 +369,7 @@ fn gen_children(rng: &mut Rng) -> Case {
             format!("outside={}", held.len()),
             format!("clients={}", nclients),
             format!("fault={}", fault_tag),
+            format!("twice={}", twice),
             format!("prompt={}", prompt as u8),
         ],
     }
@@ -822,6 +841,31 @@ fn gen_actor(p: &Profile, rng: &mut Rng) -> Case {
         }
         clients.push(ops);
     }
+    // a failure of a later incarnation needs a restart to show, and somebody who waits for the outcome
+    if fault_tag == "restart_err" && g.restartable {
+        let cands: Vec<usize> = (0..nclients).filter(|c| owned[*c].iter().any(|x| x.1 == 0)).collect();
+        if !cands.is_empty() {
+            let c = *g.rng.pick(&cands);
+            let h = owned[c].iter().find(|x| x.1 == 0).unwrap().0;
+            clients[c].push(Op::Restart { h });
+            if g.rng.chance(2, 3) {
+                let c2 = *g.rng.pick(&cands);
+                let h2 = owned[c2].iter().find(|x| x.1 == 0).unwrap().0;
+                clients[c2].push(Op::Await { h: h2 });
+            }
+        }
+    }
+    // finale: every client lets go of whatever it still holds, so that the actor ends by the last drop with
+    // whatever is queued at that moment (sends, calls, restart markers, timers)
+    let finale = g.rng.chance(3, 10);
+    if finale {
+        for c in 0..nclients {
+            for (h, _) in owned[c].clone() {
+                clients[c].push(Op::Drop { h });
+            }
+        }
+    }
+    tags.push(format!("finale={}", finale as u8));
     let prompt = g.rng.chance(p.prompt, 10);
     tags.push(format!("prompt={}", prompt as u8));
     Case {
